@@ -30,6 +30,7 @@ import FlowCal.io
 import FlowCal.transform
 import FlowCal.gate
 import FlowCal.mef
+import FlowCal.stats
 
 NAMES = ['FSC-H', 'FL1-H', 'FL2-H', 'FL3-H']
 R = [1024, 256, 1000, 512]
@@ -98,6 +99,17 @@ class World(object):
                 beads, mefv, [NAMES[ch - 1] for ch in self.mef_order],
                 clustering_fxn=lambda data, n, **kw: np.arange(data.shape[0]) % n,
                 selection_fxn=None, fitting_fxn=fit)
+
+            # reference bins: what a pristine sample in each units answers (C19: bins are a function of channel and units)
+            rfi = FlowCal.transform.to_rfi(beads)
+            mef = self.to_mef(rfi, [NAMES[ch - 1] for ch in MEF_CH])
+            self.ref_bins = {}
+            for u, x in ((0, beads), (1, rfi), (2, mef)):
+                for ch in range(1, 5):
+                    if u == 2 and ch not in MEF_CH:
+                        continue
+                    for scale in ('linear', 'log', 'logicle'):
+                        self.ref_bins[(ch, u, scale)] = np.asarray(x.hist_bins(NAMES[ch - 1], scale=scale)).tobytes()
 
     def load(self):
         with warnings.catch_warnings():
@@ -201,7 +213,7 @@ def identify_rows(W, o):
     return got[2] if got and got[2] is not None else [None] * o.shape[0]
 
 
-def compare(W, o, st_cols, st_rows):
+def compare(W, o, st_cols, st_rows, pid=None):
     """-> list of (field, detail) mismatches between the real sample and the specification's state"""
     bad = []
     if not isinstance(o, FlowCal.io.FCSData) or o.ndim != 2:
@@ -228,6 +240,36 @@ def compare(W, o, st_cols, st_rows):
         want = (AMP[ch - 1], GAIN[ch - 1], float(PNV[ch - 1]), R[ch - 1], PNS[ch - 1])
         if meta != want:
             bad.append(('meta', 'column %d (%s): metadata %r, file says %r' % (j, NAMES[ch - 1], meta, want)))
+    if bad:
+        return bad
+    if pid == 'C12' and len(st_rows) >= 1:
+        # statistics of the sample in this state = their definitions on the recorded events present, by name and position
+        with warnings.catch_warnings():
+            warnings.simplefilter('ignore')
+            for j, (ch, u) in enumerate(st_cols):
+                vals = W.expected[(ch, u)][[r - 1 for r in st_rows]]
+                srt = np.sort(vals)
+                n = len(vals)
+                defs = {'mean': float(np.sum(vals) / n),
+                        'median': float(srt[n // 2] if n % 2 else (srt[n // 2 - 1] + srt[n // 2]) / 2.0)}
+                for stat, want in defs.items():
+                    for spelled in (j, NAMES[ch - 1]):
+                        got = float(getattr(FlowCal.stats, stat)(o, spelled))
+                        if abs(got - want) > 1e-12 * max(1.0, abs(want)):
+                            return [('stats', '%s of column %r: %r, definition on the events present %r' % (stat, spelled, got, want))]
+            allm = np.asarray(FlowCal.stats.mean(o), dtype=float)
+            per = np.array([float(FlowCal.stats.mean(o, j)) for j in range(len(st_cols))])
+            if allm.shape != per.shape or not np.array_equal(allm, per):
+                return [('stats', 'mean of all channels %r differs from the per-channel answers %r' % (allm.tolist(), per.tolist()))]
+    if pid == 'C19':
+        with warnings.catch_warnings():
+            warnings.simplefilter('ignore')
+            for j, (ch, u) in enumerate(st_cols):
+                for scale in ('linear', 'log') + (('logicle',) if len(st_rows) == 6 else ()):   # logicle W depends on the events present
+                    got = np.asarray(o.hist_bins(j, scale=scale)).tobytes()
+                    if got != W.ref_bins[(ch, u, scale)]:
+                        return [('bins', '%s bins of column %d (%s, units %d) differ from those of a pristine sample in the same units' %
+                                 (scale, j, NAMES[ch - 1], u))]
     return bad
 
 
@@ -241,6 +283,10 @@ def props_of(op, field):
         return {'C07'} if op in ('rfi', 'rfi_all', 'mef') else base
     if field == 'meta':
         return base | {'C04'} if op in ('pick', 'slicec', 'rows') else base
+    if field == 'stats':
+        return {'C12'}
+    if field == 'bins':
+        return {'C19'}
     if field in ('values', 'rows', 'raised', 'accepted'):
         return base - ({'C07'} if op in ('rfi', 'rfi_all', 'mef') else set())
     return base
@@ -255,7 +301,7 @@ def start(W, init_unit):
     return o, [[i, init_unit] for i in range(1, 5)], list(range(1, 7))
 
 
-def replay(W, st, init_unit=0):
+def replay(W, st, init_unit=0, pid=None):
     """-> None or (props, label, detail, step index)"""
     hist = st['hist']
     o, cols, rows = start(W, init_unit)
@@ -281,7 +327,7 @@ def replay(W, st, init_unit=0):
             return props_of(op, 'raised'), 'raised/%s/%s' % (op, type(exc).__name__), str(exc)[:160], k
         if err2:
             return props_of(op, 'accepted'), 'accepted/%s' % op, 'the step is refused in the specification', k
-        bad = compare(W, new, cols2, rows2)
+        bad = compare(W, new, cols2, rows2, pid)
         if bad:
             field, detail = bad[0]
             return props_of(op, field), '%s/%s' % (op, field), detail, k
@@ -335,11 +381,12 @@ def relevant(pid, hist):
     """histories in which the property's own steps occur"""
     ops = {h[0] for h in hist}
     want = {'C03': {'rfi', 'rfi_all'}, 'C04': {'pick', 'slicec', 'rows'}, 'C06': {'mef'}, 'C07': {'rfi', 'rfi_all', 'mef'},
-            'C08': {'hl', 'hl_all', 'se'}, 'C20': {'dup'}, 'C13': ops}[pid]
+            'C08': {'hl', 'hl_all', 'se'}, 'C20': {'dup'}, 'C13': ops, 'C12': ops, 'C19': ops}[pid]
     return bool(ops & want)
 
 
 _W = None
+_PID = None
 
 
 def _work(arg):
@@ -350,16 +397,17 @@ def _work(arg):
     for h in hist:
         c, r, e = py_step(c, r, h)
     twin_ok = [list(x) for x in c] == [list(x) for x in st['cols']] and list(r) == list(st['rows']) and e == (st['res'] == 'err')
-    out = replay(_W, st, init_unit) if twin_ok else None
+    out = replay(_W, st, init_unit, _PID) if twin_ok else None
     if out is not None:
         out = (sorted(out[0]), out[1], out[2], out[3])
     return twin_ok, out
 
 
-def run(chk, pid, n_sim=None, depth=None, init_units=(0, 1)):
+def run(chk, pid, n_sim=None, depth=None, init_units=(0, 1), every=1):
     """all histories of <= 2 steps (exhaustive), sampled longer ones, from a raw and from an all-RFI sample;
     report what speaks against pid"""
-    global _W
+    global _W, _PID
+    _PID = pid
     import multiprocessing as mp
     _W = W = World()
     stats = {'histories': 0, 'foreign_mismatch': 0, 'max_len': 0, 'by_len': {}}
@@ -387,6 +435,8 @@ def run(chk, pid, n_sim=None, depth=None, init_units=(0, 1)):
                     continue
                 seen.add(key)
                 items.append((st, iu))
+    if every > 1:            # a deterministic share of the histories (the seed rotates which)
+        items = [it for k, it in enumerate(items) if (k + chk.seed) % every == 0]
     with mp.get_context('fork').Pool(min(16, os.cpu_count() or 1)) as pool:
         results = pool.map(_work, items, chunksize=64)
     neg = False
